@@ -1112,7 +1112,15 @@ func bulkPopOK(ps *PathSum, n string) string {
 	}
 	r := ps.Ret[0].String()
 	want := "slice(recv.waitingQueue, _, " + n + ", _)"
-	if r != want && r != "append(list(), "+want+")" && r != "append(makeslice, "+want+")" {
+	okRet := r == want
+	if strings.HasPrefix(r, "append(") && strings.HasSuffix(r, ", "+want+")") {
+		// a copy onto a fresh, empty base: list() or makeslice(0[, cap])
+		base := strings.TrimSuffix(strings.TrimPrefix(r, "append("), ", "+want+")")
+		if base == "list()" || base == "makeslice" || strings.HasPrefix(base, "makeslice(0") {
+			okRet = true
+		}
+	}
+	if !okRet {
 		return "the players handed out are " + r + ", not the first " + n + " of the queue"
 	}
 	nv := ps.Ret[0]
